@@ -20,7 +20,7 @@ StepClause(set, ser, avg, mask, new, dn) ==
     LET sel == Selected(mask)
     IN IF dn <= 0 THEN "not-a-rational-average"
        ELSE IF Len(new) # Len(avg) THEN "length"
-       ELSE IF ~Allowed(set, ser, avg, mask, new, dn) THEN "not-an-average-over-optimal-paths"
+       ELSE IF ~AllowedSearch(set, ser, avg, mask, new, dn) THEN "not-an-average-over-optimal-paths"
        ELSE IF ~InRange(ser, sel, new, dn) THEN "range"
        ELSE IF set.inner = "sq" /\ ~NotWorse(set, ser, avg, sel, new, dn) THEN "objective-increased"
        ELSE "ok"
